@@ -31,7 +31,7 @@ CLAIMED = {
             "machine and big integers of any size, floats (every binary64 pattern, written in the shortest of binary16/32/64 that holds it "
             "exactly and read back bit for bit: Proofs/CborFloat.v, for zeros, sub-normal and normal numbers, infinities and quiet NaNs), byte "
             "strings, valid UTF-8 text, arrays and objects with any such keys; sequences of values come back as sequences; a decimal literal "
-            "comes back as the float it denotes (Proofs/CborLaws.v). Correspondence: tocbor byte for byte (shortest float widths included) and "
+            "comes back as the float it denotes; an array written with indefinite length by another encoder is read as the same array (Proofs/CborLaws.v). Correspondence: tocbor byte for byte (shortest float widths included) and "
             "fromcbor on RFC 8949 appendix A, generated and mutated documents (indefinite lengths, all widths, tags, breaks), toyaml (flow and "
             "block style with all indentation options through --to yaml), fromyaml on plain scalars, tocsv/totsv/fromcsv/fromtsv on raw "
             "text. Oracles: round trips of YAML/CBOR/TOML/CSV/TSV/XML on generated domains with reserved words and indicators, values just "
